@@ -43,6 +43,52 @@ def crafted():
                     out.append((pr, [(Fraction(1), w, (), Fraction(4)), (Fraction(0), off, (), None), (Fraction(t_off), on, (), None)]))
     out += crafted_simultaneous()
     out += crafted_nondyadic()
+    out += crafted_dependency_shapes()
+    return out
+
+
+def crafted_dependency_shapes():
+    """four durative actions whose causal dependencies form a chain, a diamond (one action waits for another both directly and through a third, the
+    indirect way being longer) and a fork, with one long early action that pushes everything else -- each valid plan in EVERY listing order of its
+    timed actions (the order in which the constraints reach the temporal network is the listing order)"""
+    import itertools
+    from unified_planning.shortcuts import Problem, Fluent, BoolType, DurativeAction, StartTiming, EndTiming
+    out = []
+    F = Fraction
+    shapes = {
+        # name -> (durations, conditions at start {action: [fluents]}, start effects, end effects, start times)
+        "diamond": ({"push": 10, "hub": 1, "slow": 5, "join": 1}, {"hub": ["f_push"], "slow": ["f_hub_s"], "join": ["f_hub_e", "f_slow"]},
+                    {"hub": ["f_hub_s"]}, {"push": ["f_push"], "hub": ["f_hub_e"], "slow": ["f_slow"], "join": ["f_join"]},
+                    {"push": F(0), "hub": F(11), "slow": F(12), "join": F(18)}, "f_join"),
+        "chain": ({"push": 10, "hub": 1, "slow": 5, "join": 1}, {"hub": ["f_push"], "slow": ["f_hub_e"], "join": ["f_slow"]},
+                  {}, {"push": ["f_push"], "hub": ["f_hub_e"], "slow": ["f_slow"], "join": ["f_join"]},
+                  {"push": F(0), "hub": F(21, 2), "slow": F(12), "join": F(35, 2)}, "f_join"),
+        "fork": ({"push": 10, "hub": 2, "slow": 5, "join": 1}, {"hub": ["f_push"], "slow": ["f_push"], "join": ["f_hub_e", "f_slow"]},
+                 {}, {"push": ["f_push"], "hub": ["f_hub_e"], "slow": ["f_slow"], "join": ["f_join"]},
+                 {"push": F(0), "hub": F(11), "slow": F(21, 2), "join": F(16)}, "f_join"),
+    }
+    for nm, (durs, conds, seffs, eeffs, starts, goal) in shapes.items():
+        pr = Problem(f"dependency_{nm}")
+        fl = {}
+        for n in ("f_push", "f_hub_s", "f_hub_e", "f_slow", "f_join"):
+            fl[n] = Fluent(n, BoolType())
+            pr.add_fluent(fl[n], default_initial_value=False)
+        acts = {}
+        for an, d in durs.items():
+            a = DurativeAction(an)
+            a.set_fixed_duration(d)
+            for c in conds.get(an, []):
+                a.add_condition(StartTiming(), fl[c])
+            for e in seffs.get(an, []):
+                a.add_effect(StartTiming(), fl[e], True)
+            for e in eeffs.get(an, []):
+                a.add_effect(EndTiming(), fl[e], True)
+            pr.add_action(a)
+            acts[an] = a
+        pr.add_goal(fl[goal])
+        entries = [(starts[an], acts[an], (), F(durs[an])) for an in durs]
+        for perm in itertools.permutations(entries):
+            out.append((pr, list(perm)))
     return out
 
 
